@@ -59,6 +59,15 @@ def spec(tier):
     for w in ("both_suspending", "suspending_only", "idle_end"):
         obs.append(CH(name=f"twin_two_{w}", harness="c03.conserve_two_suspensions", sym=dict(ramA=I(1, 70), ramB=I(1, 70), dA=I(1, 2), dB=I(1, 2), dC=I(1, 4)),
                       fixed=dict(cap_cpu=8, cap_ram=200, cpuA=1, cpuB=2, K=8, want=w), timeout=90, expect="violate", group="twins2"))
+    # full simulations under the shipped schedulers
+    from vf.props.common import pipe
+    for algo, pools, oc in (("naive", 2, False), ("priority", 1, False), ("priority-pool", 2, False), ("overbook", 1, True)):
+        cfg = dict(algo=algo, pools=pools, oc=oc, multi=True, K=12 if thorough else 10,
+                   pipes=[pipe("chain3", prio=3, at=0, durs=[1, 2, 1], mems=[1, "ma", 1], reads=[0, 0, 0]),
+                          pipe("single", prio=1, at=2, durs=[2], mems=["mb"]),
+                          pipe("chain2", prio=2, at=1, durs=[1, 1], mems=[None, 1], reads=[45, 0])])
+        obs.append(CH(name=f"sim_{algo}", harness="c03.sim_conserve", sym=dict(cpus=I(1, 10), ma=I(1, 12), mb=I(1, 12), **({"ram": I(1, 14)} if algo in ("naive", "overbook") else {})),
+                      fixed=dict(cfg=cfg, **({} if algo in ("naive", "overbook") else {"ram": 30})), timeout=900))
     # reachability twins
     for want, fixed in (("rejected", {}), ("accepted2", {}), ("suspended", dict(sus_at=1)),
                         ("fail", {}), ("ok", {}), ("bad_size", {})):
